@@ -66,6 +66,7 @@ type c17Label struct {
 	H  int    // handler tag (uh dl); 0 = nil
 	Q  byte   // QoS of the inbound message (ib)
 	Re bool   // ib: the handler that is called for this message calls Handle(H) before it returns
+	Via string // uh (loop family): "" / "the returned ReconnectClient" / "the application's own RetryClient"
 }
 
 // coq renders the label; reentered: the handler did make the Handle call this message asks for
@@ -93,6 +94,9 @@ func (l c17Label) desc() string {
 	}
 	switch l.Op {
 	case "uh":
+		if l.Via != "" {
+			return "Handle(" + h(l.H) + ") through " + l.Via
+		}
 		return "Handle(" + h(l.H) + ")"
 	case "dl":
 		if l.H == 0 {
@@ -764,7 +768,15 @@ var errC17Stop = errors.New("c17: no further connection in this scenario")
 
 // c17RunLoop plays the epochs against a real ReconnectClient; returns the schedule (labels) that
 // the gates forced, the observation, and a problem description if a wait expired.
-func c17RunLoop(pre []int, eps []c17Epoch) (labels []c17Label, g *c17Log, processed map[int]bool, problem string) {
+//
+// own = 0: NewReconnectClient(dialer) with its default RetryClient, Handle through the returned value.
+// own = 1, 2: the application creates its own RetryClient rc and passes it with WithRetryClient(rc):
+// the ReconnectClient then drives rc ITSELF (reconnclient.go: WithRetryClient stores the pointer,
+// NewReconnectClient embeds options.RetryClient), so a handler registered through rc — before
+// NewReconnectClient, after it, while connected — is the registered handler of the model exactly like
+// one registered through the returned value. own = 1: every Handle call goes through rc;
+// own = 2: alternately through rc and through the returned ReconnectClient.
+func c17RunLoop(pre []int, eps []c17Epoch, own int) (labels []c17Label, g *c17Log, processed map[int]bool, problem string) {
 	g = &c17Log{}
 	processed = map[int]bool{}
 	dialArrive := make(chan struct{})
@@ -788,14 +800,56 @@ func c17RunLoop(pre []int, eps []c17Epoch) (labels []c17Label, g *c17Log, proces
 			return nil, errC17Stop
 		}
 	})
-	cli, err := mqtt.NewReconnectClient(dialer, mqtt.WithReconnectWait(50*time.Microsecond, 50*time.Microsecond))
+	const viaCli, viaRC = "the returned ReconnectClient", "the application's own RetryClient"
+	var rc *mqtt.RetryClient
+	var cli mqtt.ReconnectClient
+	var viaMu sync.Mutex
+	nVia := 0
+	via := func() string {
+		viaMu.Lock()
+		defer viaMu.Unlock()
+		nVia++
+		switch {
+		case own == 0:
+			return viaCli
+		case own == 1 || cli == nil || nVia%2 == 1:
+			return viaRC
+		}
+		return viaCli
+	}
+	doHandle := func(v string, h int) {
+		if v == viaRC {
+			rc.Handle(g.handler(h))
+		} else {
+			cli.Handle(g.handler(h))
+		}
+	}
+	g.reenter = func(h int) { doHandle(via(), h) }
+	handle := func(h int) bool {
+		v := via()
+		l := c17Label{Op: "uh", H: h}
+		if own != 0 {
+			l.Via = v
+		}
+		labels = append(labels, l)
+		return c17Call(func() { doHandle(v, h) })
+	}
+	opts := []mqtt.ReconnectOption{mqtt.WithReconnectWait(50*time.Microsecond, 50*time.Microsecond)}
+	if own != 0 {
+		rc = &mqtt.RetryClient{}
+		opts = append(opts, mqtt.WithRetryClient(rc))
+		// the handlers registered before Connect are registered on rc before the ReconnectClient exists
+		for _, h := range pre {
+			if !handle(h) {
+				return labels, g, processed, "Handle on the application's RetryClient did not return"
+			}
+		}
+		pre = nil
+	}
+	var err error
+	cli, err = mqtt.NewReconnectClient(dialer, opts...)
 	if err != nil {
 		return nil, g, processed, "NewReconnectClient: " + err.Error()
-	}
-	g.reenter = func(h int) { cli.Handle(g.handler(h)) }
-	handle := func(h int) bool {
-		labels = append(labels, c17Label{Op: "uh", H: h})
-		return c17Call(func() { cli.Handle(g.handler(h)) })
 	}
 	handles := func(hs []int, where string) bool {
 		for _, h := range hs {
@@ -1222,20 +1276,21 @@ func runC17(cfg *runCfg) error {
 	}
 
 	// ---- loop: the real ReconnectClient
-	addLoop := func(pre []int, eps []c17Epoch, kind string) {
+	addLoop := func(pre []int, eps []c17Epoch, own int, kind string) {
 		if c17GiveUp() {
 			stats["skipped_after_expired_waits"]++
 			return
 		}
 		t0 := time.Now()
-		ls, g, processed, problem := c17RunLoop(pre, eps)
+		ls, g, processed, problem := c17RunLoop(pre, eps, own)
 		c17Slow("loop", t0, ls, problem)
 		if problem != "" {
-			m.ImplViolations = append(m.ImplViolations, map[string]interface{}{"family": "loop", "kind": kind, "schedule": c17Desc(ls), "stuck": problem})
+			m.ImplViolations = append(m.ImplViolations, map[string]interface{}{"family": "loop", "kind": kind, "with_retry_client_mode": own, "schedule": c17Desc(ls), "stuck": problem})
 			return
 		}
 		coq, desc, ord := c17Obs(ls, g.snapshot(), processed)
-		c := map[string]interface{}{"kind": kind, "client": "ReconnectClient", "schedule": c17Desc(ls), "deliveries": desc}
+		c := map[string]interface{}{"kind": kind, "client": []string{"ReconnectClient (default RetryClient)", "ReconnectClient built with WithRetryClient(rc); every Handle call through rc",
+			"ReconnectClient built with WithRetryClient(rc); Handle calls alternately through rc and through the returned client"}[own], "schedule": c17Desc(ls), "deliveries": desc}
 		if !ord {
 			m.ImplViolations = append(m.ImplViolations, map[string]interface{}{"family": "loop", "what": "handler calls out of order", "case": c})
 		}
@@ -1244,6 +1299,7 @@ func runC17(cfg *runCfg) error {
 		note("loop"+fmt.Sprint(c17Desc(ls)), ls)
 		count(ls)
 		stats["loop_"+kind]++
+		stats[fmt.Sprintf("loop_retryclient_mode%d", own)]++
 		if len(m.Samples) < 4 && kind == "random" && len(eps) >= 3 {
 			m.Samples = append(m.Samples, c)
 		}
@@ -1293,7 +1349,7 @@ func runC17(cfg *runCfg) error {
 			mm += 4
 			eps = append(eps, ep)
 		}
-		addLoop(pre, eps, "enumerated")
+		addLoop(pre, eps, (mask/3)%3, "enumerated")
 	}
 	nLoop := 200
 	if cfg.tier == "thorough" {
@@ -1304,7 +1360,7 @@ func runC17(cfg *runCfg) error {
 	for i := 0; i < nLoop; i++ {
 		g := c17NewGen(r)
 		pre, eps := g.loopScenario(1 + r.Intn(6))
-		addLoop(pre, eps, "random")
+		addLoop(pre, eps, r.Intn(3), "random")
 	}
 
 	// ---- race: Handle truly concurrent with a window of steps on a bare RetryClient
@@ -1469,7 +1525,7 @@ func runC17(cfg *runCfg) error {
 	m.Families["race"] = race.fam
 	m.Evaluations = len(seq.cases) + len(loop.cases) + len(race.cases) + rounds
 	m.DistinctNontrivial = nontrivial
-	m.Rule = "seq: a bare RetryClient executes a schedule of the model label by label (Handle inserted at every position / pair of positions of two skeleton schedules, one of them with SetClient while the older connection is still read; random walks over enabled labels, 12-47 labels, up to 7 clients); loop: a real ReconnectClient with Handle calls at the subsets of the eleven gate positions of two connections and random scenarios of 1-6 connections with refused attempts, bursts behind CONNACK, dialer-set handlers; race: Handle concurrent with 1-3 messages or with a whole reconnect; stress: time-bounded rounds of Handle concurrent with an ungated RetryClient.Connect (spin offsets, Stats() contention), a message sent after both returned, rounds aggregated by outcome before the Coq evaluation. Messages whose handler calls Handle from inside the callback (new handler, same handler, nil) in seq (third skeleton, 1 in 8 random messages) and loop (enumerated: last message of connection 0, QoS 1 message right behind the second CONNACK). Every CONNACK is followed in the same send by the burst; QoS 0/1/2. Non-trivial = distinct forced schedule with a Handle call, two or more connected connections and a message on a later connection."
+	m.Rule = "seq: a bare RetryClient executes a schedule of the model label by label (Handle inserted at every position / pair of positions of two skeleton schedules, one of them with SetClient while the older connection is still read; random walks over enabled labels, 12-47 labels, up to 7 clients); loop: a real ReconnectClient (a third each: default RetryClient; the application's own RetryClient passed with WithRetryClient and every Handle call, also those before NewReconnectClient, made through that object; the same with calls alternating between that object and the returned client) with Handle calls at the subsets of the eleven gate positions of two connections and random scenarios of 1-6 connections with refused attempts, bursts behind CONNACK, dialer-set handlers; race: Handle concurrent with 1-3 messages or with a whole reconnect; stress: time-bounded rounds of Handle concurrent with an ungated RetryClient.Connect (spin offsets, Stats() contention), a message sent after both returned, rounds aggregated by outcome before the Coq evaluation. Messages whose handler calls Handle from inside the callback (new handler, same handler, nil) in seq (third skeleton, 1 in 8 random messages) and loop (enumerated: last message of connection 0, QoS 1 message right behind the second CONNACK). Every CONNACK is followed in the same send by the burst; QoS 0/1/2. Non-trivial = distinct forced schedule with a Handle call, two or more connected connections and a message on a later connection."
 	m.Distribution["counts"] = stats
 	m.Distribution["seq_cases"] = len(seq.cases)
 	m.Distribution["loop_cases"] = len(loop.cases)
